@@ -439,8 +439,34 @@ func manipScenarios(yield func(any)) {
 	}
 }
 
+// profileValidityScenarios: what an entity without a validity of its own inherits from its profile, for profiles
+// with and without extensions, static and run-relative validity forms, and entities with and without own extensions
+func profileValidityScenarios(yield func(any)) {
+	validities := []J{{"from": "2031-03-01", "until": "2031-09-15"}, {"from": "2030-01-31", "duration": "1m"}, {"duration": "18m"}, {"until": "2044-02-29"}, {"from": "2049-12-31", "duration": "1d"}}
+	for _, v := range validities {
+		for _, profExt := range []bool{false, true} {
+			for _, ownExt := range []bool{false, true} {
+				p := J{"version": 1, "name": "vp", "validity": v}
+				if profExt {
+					p["extensions"] = []J{{"keyUsage": J{"content": []string{"digitalSignature"}}}}
+				}
+				c := J{"version": 1, "subject": "CN=Inherits Validity", "profile": "vp"}
+				if ownExt {
+					c["extensions"] = []J{{"subjectKeyIdentifier": J{"content": "hash"}}}
+				}
+				own := J{"version": 1, "subject": "CN=Own Validity", "profile": "vp", "issuer": "e0", "validity": J{"from": "2027-05-05", "until": "2028-05-05"}}
+				ents := []entitySpec{{alias: "e0", path: "e0.yaml", issuer: -1, cfg: c}, {alias: "e1", path: "e1.yaml", issuer: 0, cfg: own}}
+				files := filesOf(ents)
+				files = append(files, profileSpec{name: "vp", path: "vp.yaml", cfg: p}.file())
+				yield(PkiIn{Tz: choose([]int{0, 7200, -18000}), Strat: 9, Files: files})
+			}
+		}
+	}
+}
+
 func genPki(yield func(any)) {
 	manipScenarios(yield)
+	profileValidityScenarios(yield)
 	tzs := []int{0, 3600, -5 * 3600, 14 * 3600, -12 * 3600, 19800}
 	for n := 0; n < pick(250, 4000); n++ {
 		size := 1 + rng.Intn(5)
